@@ -355,9 +355,10 @@ def run_kani(scratch, package, insts, jobs, timeout_s, small=True, extra_cfg=(),
             return r
         left = deadline - time.time()
         if left < 20:
-            r = HarnessResult(n); r.status = "timeout"; r.note = "tier cap reached before start"
+            r = HarnessResult(n); r.status = "timeout"; r.note = "tier budget used up before this instance was started"
             return r
-        t = left if per_harness_timeout_s is None else min(left, per_harness_timeout_s)
+        # with a per-instance cap the budget only limits which instances are STARTED
+        t = left if per_harness_timeout_s is None else per_harness_timeout_s
         goto = link_and_instrument(gotos[n], logdir, n)
         try:
             return run_one(scratch, n, goto, inst.unwind, t, logdir,
